@@ -197,7 +197,7 @@ def exI : List IItem := [
   .incl none "/abs/c".toList]
 
 def exIText : Str :=
-  "// head\na 1;\n#include 'inc/a'\n /* blk */ n {\n  p 'x y';\n#include \"../b\"\n  // in\n}\n#include /abs/c\n".toList
+  " // head\na 1;\n#include 'inc/a'\n /* blk */ n {\n  p 'x y';\n#include \"../b\"\n  // in\n}\n#include /abs/c\n".toList
 
 set_option synthInstance.maxSize 1000 in
 /-- the reader on the example text, from counter 6, in directory `/d`: field by field what `denI` says -/
@@ -1524,5 +1524,215 @@ theorem C12_read_included {items : List IItem} {gaps : List Str} {tail : Str} (d
   show parseRest _ (spreadS (srcToksPEs (labelI dir c items).2) gaps' tail') = _
   rw [parseRest_labelled_clean hw hgs ht rfl rfl hv (by rw [hq]; exact hn) hk, hq]
   rfl
+
+/-! ## 9. non-vacuity: the example of section 1 through the theorem -/
+
+/-- the tokens of the example (`itoksItems` is defined by well-founded recursion: unfolded with its equations) -/
+def exIToks : List CTok :=
+  [.lineC " head".toList, .tok (.word ['a']), .tok (.word ['1']), .tok (.word [';']),
+   .tok (.word "#include 'inc/a'".toList), .blockC " blk ".toList, .tok (.word ['n']), .tok (.word ['{']),
+   .tok (.word ['p']), .tok (.quoted '\'' "x y".toList), .tok (.word [';']), .tok (.word "#include \"../b\"".toList),
+   .lineC " in".toList, .tok (.word ['}']), .tok (.word "#include /abs/c".toList)]
+
+theorem exIToks_eq : itoksItems exI = exIToks := by
+  have e1 : dirText (some '\'') "inc/a".toList = "#include 'inc/a'".toList := by decide
+  have e2 : dirText (some '"') "../b".toList = "#include \"../b\"".toList := by decide
+  have e3 : dirText none "/abs/c".toList = "#include /abs/c".toList := by decide
+  simp only [exI, exIToks, itoksItems, Lit.tok, e1, e2, e3, List.cons_append, List.nil_append]
+
+/-- the layout of `exIText`: every directive alone on its line -/
+def exIGaps : List Str :=
+  [[' '], ['\n'], [' '], [], ['\n'], ['\n', ' '], [' '], [' '], ['\n', ' ', ' '], [' '], [], ['\n'], ['\n', ' ', ' '],
+   ['\n'], ['\n']]
+
+theorem exI_wf : ISrcWFItems 1 exI = true := by decide +kernel
+theorem exIGaps_ok : GapsOKI (itoksItems exI) exIGaps ['\n'] = true := by rw [exIToks_eq]; decide +kernel
+theorem exI_text : spreadC (itoksItems exI) exIGaps ['\n'] = exIText := by rw [exIToks_eq]; decide +kernel
+
+/-- the theorem on the example, any directory, any valid counter -/
+theorem exI_read (dir : Str) (c : Counter) (hc : C13.ValidCounter Gen.counterLimit c) :
+    parseNative true dir c exIText =
+      .ok (denI dir c exI, C02.adv Gen.counterLimit (C02.countQuotedEs (plainIItems exI)) (labelI dir c exI).1.icounter) := by
+  rw [← exI_text]
+  exact C12_read_included dir c exI_wf exIGaps_ok (fun h => by cases h) hc (by decide +kernel) (by decide +kernel)
+
+/-- what the example means, read in `/d` from counter 6 (the line comments draw 7 and 8, the directives 9, 10, 11):
+    the include table, in document order, with the exact directive texts, file names and paths -/
+theorem exI_incl : (denI "/d".toList (some 6) exI).incl =
+    [(9, { directive := "#include 'inc/a'".toList, file := "inc/a".toList, path := "/d/inc/a".toList }),
+     (10, { directive := "#include \"../b\"".toList, file := "../b".toList, path := "/d/../b".toList }),
+     (11, { directive := "#include /abs/c".toList, file := "/abs/c".toList, path := "/abs/c".toList })] := by
+  decide +kernel
+
+theorem exI_keys : keys (denI "/d".toList (some 6) exI).data =
+    [.str "LINECOMMENT000007".toList, .str ['a'], .str "INCLUDE000009".toList, .str "BLOCKCOMMENT000000".toList,
+     .str ['n'], .str "INCLUDE000011".toList] ∧
+    lookup (.str ['n']) (denI "/d".toList (some 6) exI).data =
+      some (.dict [(.str ['p'], .leaf (.str "x y".toList)),
+                   (.str "INCLUDE000010".toList, .leaf (.str "INCLUDE000010".toList)),
+                   (.str "LINECOMMENT000008".toList, .leaf (.str "LINECOMMENT000008".toList))]) := by
+  decide +kernel
+
+/-! ## 10. the include table lists the directives of the source, in document order -/
+
+mutual
+  /-- the directives of a document, in document order -/
+  def inclsV : ISrc → List (Option Char × Str)
+    | .lit _ => []
+    | .dict items => inclsItems items
+    | .list _ => []
+  def inclsItems : List IItem → List (Option Char × Str)
+    | [] => []
+    | .entry _ v :: r => inclsV v ++ inclsItems r
+    | .lineC _ :: r => inclsItems r
+    | .blockC _ :: r => inclsItems r
+    | .incl q n :: r => (q, n) :: inclsItems r
+end
+
+/-- table update with a list of entries -/
+def setAllI (t : Tbl InclEntry) (l : List (Nat × InclEntry)) : Tbl InclEntry := l.foldl (fun t p => t.set p.1 p.2) t
+
+theorem setAllI_append (t : Tbl InclEntry) (l l' : List (Nat × InclEntry)) :
+    setAllI t (l ++ l') = setAllI (setAllI t l) l' := by simp [setAllI, List.foldl_append]
+
+theorem TblI_set_fresh {i : Nat} {a : InclEntry} : ∀ {t : Tbl InclEntry}, i ∉ t.map (·.1) → Tbl.set i a t = t ++ [(i, a)]
+  | [], _ => rfl
+  | (j, b) :: t, h => by
+    simp only [List.map_cons, List.mem_cons, not_or] at h
+    have : ¬ j = i := fun e => h.1 e.symm
+    simp only [Tbl.set, this, if_false, List.cons_append, TblI_set_fresh h.2]
+
+theorem setAllI_nodup : ∀ (l : List (Nat × InclEntry)) (t : Tbl InclEntry), (t.map (·.1) ++ l.map (·.1)).Nodup →
+    setAllI t l = t ++ l
+  | [], t, _ => by simp [setAllI]
+  | (i, a) :: l, t, h => by
+    have hi : i ∉ t.map (·.1) := by
+      intro hm
+      have := (List.nodup_append.mp h).2.2 i hm i (by simp)
+      exact this rfl
+    have h' : ((t ++ [(i, a)]).map (·.1) ++ l.map (·.1)).Nodup := by
+      simpa using h
+    show setAllI (Tbl.set i a t) l = _
+    rw [TblI_set_fresh hi, setAllI_nodup l _ h']
+    simp
+
+/-- the entries of the directives with the ids drawn for them, in document order -/
+def drawnIncl (dir : Str) (c : Counter) (l : List (Option Char × Str)) : List (Nat × InclEntry) :=
+  List.zip (alloc Gen.counterLimit l.length c) (l.map fun p => inclEntry dir p.1 p.2)
+
+theorem drawnIncl_append (dir : Str) (c : Counter) (l l' : List (Option Char × Str)) :
+    drawnIncl dir c (l ++ l') = drawnIncl dir c l ++ drawnIncl dir (C02.adv Gen.counterLimit l.length c) l' := by
+  simp only [drawnIncl, List.length_append, C02.alloc_add, List.map_append]
+  exact List.zip_append (by simp [C13.alloc_length])
+
+mutual
+  theorem incl_stateV (dir : Str) : ∀ (v : ISrc) (st : ILabelSt),
+      (labelIV dir st v).1.incl = setAllI st.incl (drawnIncl dir st.icounter (inclsV v)) ∧
+      (labelIV dir st v).1.icounter = C02.adv Gen.counterLimit (inclsV v).length st.icounter
+    | .lit l, st => by simp [labelIV, inclsV, drawnIncl, setAllI, alloc, C02.adv]
+    | .dict items, st => by simpa only [labelIV, inclsV] using incl_stateI dir items st
+    | .list xs, st => by simp [labelIV, inclsV, drawnIncl, setAllI, alloc, C02.adv]
+  /-- the include table after the labelling: the entries of the directives, set in document order under the ids drawn
+      in that order; the counter has advanced by their number -/
+  theorem incl_stateI (dir : Str) : ∀ (items : List IItem) (st : ILabelSt),
+      (labelIItems dir st items).1.incl = setAllI st.incl (drawnIncl dir st.icounter (inclsItems items)) ∧
+      (labelIItems dir st items).1.icounter = C02.adv Gen.counterLimit (inclsItems items).length st.icounter
+    | [], st => by simp [labelIItems, inclsItems, drawnIncl, setAllI, alloc, C02.adv]
+    | .entry k v :: r, st => by
+      obtain ⟨h1, h2⟩ := incl_stateV dir v st
+      obtain ⟨h3, h4⟩ := incl_stateI dir r (labelIV dir st v).1
+      simp only [labelIItems, inclsItems, drawnIncl_append, setAllI_append, List.length_append, C02.adv_add]
+      rw [h3, h4, h1, h2]
+      exact ⟨rfl, rfl⟩
+    | .lineC x :: r, st => by
+      simp only [labelIItems, inclsItems]
+      exact incl_stateI dir r _
+    | .blockC x :: r, st => by
+      simp only [labelIItems, inclsItems]
+      exact incl_stateI dir r _
+    | .incl q n :: r, st => by
+      obtain ⟨h3, h4⟩ := incl_stateI dir r
+        { st with icounter := (Counter.next Gen.counterLimit st.icounter).2,
+                  incl := st.incl.set (Counter.next Gen.counterLimit st.icounter).1 (inclEntry dir q n) }
+      simp only [labelIItems, inclsItems]
+      rw [h3, h4]
+      simp [drawnIncl, alloc, setAllI, C02.adv]
+end
+
+/-- **every `#include` directive of the source is in the include table the reader builds, with its exact directive
+    text, its file name and its path, in document order**, under consecutive ids that follow those of the line
+    comments.  This is the table in the reader's state after its stages, i.e. the table `_clean` starts from
+    (`denI` is `_clean` of it): `_clean` deletes an entry only when the same level holds a second directive with the
+    same text, see `incl_clean_merges`. -/
+theorem C12_incl_table {items : List IItem} (dir : Str) (c : Counter)
+    (hc : C13.ValidCounter Gen.counterLimit c) (hm : (inclsItems items).length ≤ Gen.counterLimit + 1) :
+    (labelI dir c items).1.incl =
+      List.zip (alloc Gen.counterLimit (inclsItems items).length (C02.adv Gen.counterLimit (countLineItems items) c))
+        ((inclsItems items).map fun p =>
+          ({ directive := dirText p.1 p.2, file := p.2,
+             path := if p.2.head? == some '/' then p.2 else dir ++ ['/'] ++ p.2 } : InclEntry)) := by
+  have h := (incl_stateI dir items
+    { c := { counter := c }, icounter := C02.adv Gen.counterLimit (countLineItems items) c }).1
+  have e : (labelI dir c items).1.incl = _ := h
+  rw [e, setAllI_nodup _ [] ?_]
+  · rfl
+  · have : (drawnIncl dir (C02.adv Gen.counterLimit (countLineItems items) c) (inclsItems items)).map (·.1) =
+        alloc Gen.counterLimit (inclsItems items).length (C02.adv Gen.counterLimit (countLineItems items) c) := by
+      simp only [drawnIncl]
+      rw [List.map_fst_zip]
+      simp [C13.alloc_length]
+    simp only [List.map_nil, List.nil_append, this]
+    exact C13.alloc_nodup hm (C02.adv_valid _ hc)
+
+/-- … and that table is what the reader's stages leave in its state -/
+theorem C12_incl_table_stages {d : Nat} {items : List IItem} {gaps : List Str} {tail : Str} (dir : Str) (c : Counter)
+    (hwf : ISrcWFItems d items = true) (hg : GapsOKI (itoksItems items) gaps tail = true)
+    (htail : items = [] → tail.all isWs = true) :
+    (commentStages true dir c (spreadC (itoksItems items) gaps tail)).1.incl = (labelI dir c items).1.incl := by
+  obtain ⟨_, _, h, _, _⟩ := include_stages dir c hwf hg htail
+  rw [h]
+
+/-! ## 11. what is excluded, and why -/
+
+/-- a directive must stand alone on its line: behind other text it is no directive (no table entry, no placeholder) -/
+theorem incl_needs_own_line :
+    (parseNative true "/d".toList none "a 1; #include 'x'\n".toList).toOption.map (fun r => (keys r.1.data, r.1.incl)) =
+      some ([.str ['a']], []) := by decide +kernel
+
+/-- … and so it is inside a dict on the line of the opening brace -/
+theorem incl_needs_own_line_nested :
+    (parseNative true "/d".toList none "b { #include \"sub/y\"\n }\n".toList).toOption.map
+        (fun r => (keys r.1.data, r.1.incl)) = some ([.str ['b']], []) := by decide +kernel
+
+/-- a file name must not contain `//`: the line-comment stage runs first and cuts the directive -/
+theorem incl_name_no_line_comment :
+    (parseNative true "/d".toList none "#include 'a//b'\n".toList).toOption.map (fun r => r.1.incl.map (·.2.file)) =
+      some ["aLINECOMMENT000000".toList] := by decide +kernel
+
+/-- white space in front of `#` (after the line break) and behind the name is accepted by the reader but becomes part
+    of the recorded directive text: the layouts of `GapsOKI` have none (the gap in front ends with the line break, the
+    gap behind starts with the line feed) -/
+theorem incl_indent_recorded :
+    (parseNative true "/d".toList none "  #include 'x'  \n".toList).toOption.map
+        (fun r => r.1.incl.map (fun e => (e.2.directive, e.2.file))) =
+      some [("  #include 'x'  ".toList, ['x'])] := by decide +kernel
+
+/-- `_clean` merges identical directives of one dict level: the second `#include 'x'` loses its table entry (and its
+    placeholder entry).  `denI` says so, and the reader agrees (`C12_read_included`). -/
+theorem incl_clean_merges :
+    (labelI "/d".toList none [.incl (some '\'') ['x'], .incl (some '\'') ['x']]).1.incl.length = 2 ∧
+    (denI "/d".toList none [.incl (some '\'') ['x'], .incl (some '\'') ['x']]).incl =
+      [(0, { directive := "#include 'x'".toList, file := ['x'], path := "/d/x".toList })] ∧
+    keys (denI "/d".toList none [.incl (some '\'') ['x'], .incl (some '\'') ['x']]).data = [.str "INCLUDE000000".toList] ∧
+    (parseNative true "/d".toList none "#include 'x'\n#include 'x'\n".toList).toOption.map (fun r => r.1.incl) =
+      some (denI "/d".toList none [.incl (some '\'') ['x'], .incl (some '\'') ['x']]).incl := by
+  refine ⟨?_, ?_, ?_, ?_⟩ <;> decide +kernel
+
+/-- not covered (but handled by the reader in the same way): a directive that ends the text without a line feed; the
+    layouts of `GapsOKI` demand the line feed -/
+theorem incl_last_without_newline :
+    (parseNative true "/d".toList none "#include 'x'".toList).toOption.map (fun r => (keys r.1.data, r.1.incl)) =
+      some ([.str "INCLUDE000000".toList],
+        [(0, { directive := "#include 'x'".toList, file := ['x'], path := "/d/x".toList })]) := by decide +kernel
 
 end DictIO.C12
